@@ -30,10 +30,13 @@ func (k Keeper) WeightedMode(ctx context.Context, reports []types.MicroReport, m
 	}
 
 	// find the max frequency
-	for value, frequency := range frequencyMap {
+	// iterate over the reports (not over the map, whose iteration order is random) so that
+	// values with equal weight are resolved by a fixed rule: the first one in report order wins
+	for _, r := range reports {
+		frequency := frequencyMap[r.Value]
 		if frequency > maxFrequency {
 			maxFrequency = frequency
-			mode = value
+			mode = r.Value
 		}
 	}
 
